@@ -41,6 +41,9 @@ type Cell struct {
 	// Again: the command is sent twice; after the first (judged) round the relationship L->T is taken away
 	// (delete | revoked | expired | inactive applied to the victim mappings); the second round is the one reported.
 	Again string `json:"again_after,omitempty"`
+	// Index: stale-id-reused = the per-client index of L and T holds the id of a deleted mapping of theirs that
+	// now names a mapping between two other clients (S -> an unknown client); Target reused-id names that id.
+	Index string `json:"index_state,omitempty"`
 	// MState: state the victim's mappings (L->T) are put into before the command: "" = active,
 	// revoked | expired | inactive (the record exists but IsValid() is false).
 	MState string `json:"mapping_state,omitempty"`
@@ -78,6 +81,11 @@ func extras(claim string, withTarget bool) string {
 // pick the mapping / code / domain / client the body names
 func (w *world) mappingFor(c *Cell, rid int64, socks bool) string {
 	switch c.Target {
+	case "reused-id":
+		if w.reusedID != "" {
+			return w.reusedID
+		}
+		return "pm_does_not_exist"
 	case "zero-listen":
 		return w.m0.ID
 	case "zero-target":
@@ -341,6 +349,21 @@ func (w *world) step(c *Cell) (res stepResult) {
 		}
 		return r2
 	}
+	if c.Index == "stale-id-reused" {
+		if err := w.makeStaleIndex(); err != nil {
+			res.f = &fail{"C11/harness/setup-failed", err.Error()}
+			return
+		}
+		if rq, err = w.requester(c.Identity); err != nil {
+			res.f = &fail{"C11/harness/setup-failed", err.Error()}
+			return
+		}
+	}
+	if w.pushLeak != "" {
+		res.f = &fail{"C11/ConfigPushAfterLogin/identity=stranger/read-mapping-of-other-client/per-client-index-holds-id-of-a-mapping-of-other-clients", w.pushLeak}
+		w.pushLeak = ""
+		return
+	}
 	if c.MState != "" {
 		if err := w.setMappingState(c.MState); err != nil {
 			res.f = &fail{"C11/harness/setup-failed", err.Error()}
@@ -439,6 +462,8 @@ func (w *world) step(c *Cell) (res stepResult) {
 			res.f.key += "/same-command-id-and-body-sent-just-before-by-entitled-client"
 		case c.CodeState != "" && codeOp:
 			res.f.key += "/code-already-activated-by-another-client"
+		case c.Index != "" && (sp.Object == "mapping" || sp.Object == "traffic"):
+			res.f.key += "/per-client-index-holds-id-of-a-mapping-of-other-clients"
 		case strings.HasPrefix(c.Target, "zero-") && m.mappingID != "":
 			res.f.key += "/mapping-with-client-0-as-" + strings.TrimPrefix(c.Target, "zero-") + "-side"
 		}
@@ -529,6 +554,7 @@ func (w *world) judge(sp *spec, c *Cell, rid int64, m *meta, before, after snaps
 	allowedFor := map[int64]bool{} // clients whose derived lists may change as a consequence of an allowed change
 	var effects []string
 	var fresh []string // ids / secrets of objects created by this command (blanked in the summary)
+	touched := map[string]bool{} // ids of objects this command was allowed to create, change or remove
 	for _, ch := range changes {
 		if ch.Kind == "index" && ch.Op == "changed" && ch.Before.State == "-" {
 			ch.Op = "created" // the name was free before
@@ -561,6 +587,7 @@ func (w *world) judge(sp *spec, c *Cell, rid int64, m *meta, before, after snaps
 				if o.Kind != "index" {
 					fresh = append(fresh, o.ID)
 				}
+				touched[o.ID] = true
 				for _, tk := range o.Tokens {
 					if !strings.Contains(tk, "secret-host") {
 						fresh = append(fresh, strings.Trim(tk, `"`))
@@ -602,6 +629,7 @@ func (w *world) judge(sp *spec, c *Cell, rid int64, m *meta, before, after snaps
 			for _, p := range o.Parties {
 				allowedFor[p] = true
 			}
+			touched[o.ID] = true
 		}
 		eff := ch.Op + " " + ch.Key
 		if ch.After != nil {
@@ -617,7 +645,17 @@ func (w *world) judge(sp *spec, c *Cell, rid int64, m *meta, before, after snaps
 		if o.Kind != "clientmaps" && o.Kind != "clientdomains" {
 			continue
 		}
-		if !allowedFor[o.Parties[0]] && o.Parties[0] != rid || !authed {
+		// a derived list may also change exactly by the ids of objects this command was allowed to create or remove
+		// (an index can hold ids of objects its client is no party of: stale entries)
+		onlyTouched := authed && ch.After != nil
+		if onlyTouched {
+			for _, id := range listDelta(o.State, ch.After.State) {
+				if !touched[id] {
+					onlyTouched = false
+				}
+			}
+		}
+		if (!allowedFor[o.Parties[0]] && o.Parties[0] != rid && !onlyTouched) || !authed {
 			cl := idClass(c.Identity, false)
 			res.f = &fail{fmt.Sprintf("C11/%s/identity=%s/changed-%s-of-other-client", sp.Name, cl, o.Kind),
 				fmt.Sprintf("requester %s(id %d): list of client %s went %s -> %v", c.Identity, rid, o.ID, o.State, ch.After)}
@@ -1066,4 +1104,31 @@ func (w *world) stepResponse(sp *spec, c *Cell, rq *miniserver.Client, rid int64
 	accepted := strings.Contains(got, injectedMarker)
 	res.summary = fmt.Sprintf("pending=%v when=%s accepted=%v replies=%d pushErr=%v", c.Pending, c.When, accepted, len(out.replies), out.pushErr != "")
 	return
+}
+
+
+// listDelta returns the ids by which two rendered id lists ("[a b c] err=false") differ.
+func listDelta(a, b string) []string {
+	parse := func(s string) map[string]bool {
+		m := map[string]bool{}
+		if i, j := strings.Index(s, "["), strings.Index(s, "]"); i >= 0 && j > i {
+			for _, f := range strings.Fields(s[i+1 : j]) {
+				m[f] = true
+			}
+		}
+		return m
+	}
+	ma, mb := parse(a), parse(b)
+	var out []string
+	for k := range ma {
+		if !mb[k] {
+			out = append(out, k)
+		}
+	}
+	for k := range mb {
+		if !ma[k] {
+			out = append(out, k)
+		}
+	}
+	return out
 }
